@@ -797,7 +797,8 @@ impl RuleCatalog {
         let content = serde_json::to_string_pretty(&catalog_file)
             .map_err(|e| format!("Failed to serialize catalog: {e}"))?;
 
-        fs::write(&self.catalog_path, content)
+        // Write-to-temp + fsync + rename: a crash never leaves a truncated catalog behind
+        crate::storage::metadata::write_file_atomic(&self.catalog_path, content.as_bytes())
             .map_err(|e| format!("Failed to write catalog: {e}"))?;
 
         self.dirty = false;
